@@ -1,5 +1,6 @@
 """C15 — responses written by the library can be read back by it."""
 import codec_common as K
+import codec_random as R
 
 
 def body_class(parts):
@@ -40,4 +41,4 @@ def run(tier, replay):
                        "Gen_Codec(c15): both serialisers (Response::generate_response, Response::generate) x 8 statuses x header lists x single parts over 12 body classes "
                        "(empty, binary 0..255, ending in CR / LF / CRLF, dashes, near-boundary) + all pairs of body classes as two parts + 3..6 parts; all 61 registered statuses; "
                        "Response::parse of the bytes compared field by field; 8 corrupted serialisations must be rejected",
-                       ["Content-Range / Content-Type / Content-Length added by the serialiser are not part of the compared header list (subset comparison)"])
+                       ["Content-Range / Content-Type / Content-Length added by the serialiser are not part of the compared header list (subset comparison)"], extra_cases=R.c15)
